@@ -587,6 +587,23 @@ func runC05(c *Ctx, w *World, r *Report) {
 		}
 		r.Check(badL == "", "R-LOOKUPEXIT", "bmtree.IndexToPath", w.Pos(fn.Pos()), badL, fmt.Sprintf("%d loop exits, each on selector != 0 or index <= 0", nexit))
 	}
+	// R-ROWINDEX, R-PREFIX: necessary conditions of the two arithmetic stages (props_c05b.go)
+	{
+		var rowIdx ssa.Value
+		eachInstr(fn, func(ins ssa.Instruction) {
+			if ia, ok := ins.(*ssa.IndexAddr); ok {
+				if ld, ok := ia.X.(*ssa.UnOp); ok {
+					if ia2, ok := ld.X.(*ssa.IndexAddr); ok {
+						if u, ok := ia2.X.(*ssa.UnOp); ok && isGlobal(u.X, "bmtree", "idxToPath") {
+							rowIdx = ia.Index
+						}
+					}
+				}
+			}
+		})
+		reportRowIndex(w, r, fn, rowIdx)
+		reportPrefix(w, r, fn)
+	}
 	// R-ACCUM: what earlier iterations put into the path word is kept
 	{
 		r.Rule("R-ACCUM", "the 64-bit words IndexToPath carries around its loops and combines into the result (the path accumulator, the level mask) are updated from their own previous value on every way round a loop (p2 |= .., mask >>= ..): a plain assignment inside a loop overwrites what earlier iterations contributed (e.g. a prefix shortcut applied a second time drops the bits fixed by the first)")
@@ -852,7 +869,7 @@ func init() {
 	register(&Prop{
 		ID: "C05", Level: "other",
 		Explain: "E6 constant-table check (DESIGN.md 5/C05): the literal idxToPath table is read through go/types constant folding (no execution) and compared with the table generated from the path layout: all 27 constants, the key set, and the agreement of the selector constant with the loop-exit test. Heights <= 3 are answered by this table alone and every larger height ends in it.",
-		NotDec:  []string{"the common-prefix shortcut and the bit-by-bit descent loop for heights >= 4 (arithmetic)"},
+		NotDec:  []string{"that the common-prefix shortcut and the bit-by-bit descent loop compute the right path for heights >= 4 (arithmetic); decided of them are only necessary conditions: loop exits (R-LOOKUPEXIT), accumulation (R-ACCUM), fill constants (R-FILL32), a non-negative row index (R-ROWINDEX), the self-consistency and per-path prefix length of the shortcut (R-PREFIX)"},
 		Trusted: []string{"go/types constant folding", "the generator in the checker (allPathsOfHeight), derived from the NewPath layout checked by C10"},
 		Quick:   []Config{cfgDefault}, Thorough: []Config{cfgDefault, cfg386},
 		Run: runC05,
